@@ -8,7 +8,7 @@ VARIABLES tid, l, st, verdict
 vars == <<tid, l, st, verdict>>
 Ev == Traces[tid].events
 Sc == Traces[tid].scenario
-Unanswered(i) == Sc.script[i] \in {"none", "late"}
+Unanswered(i) == Sc.script[i] \in {"none", "late", "gone"}
 AllUnanswered == \A i \in 1..Sc.retries : Unanswered(i)
 FirstAnswered == IF AllUnanswered THEN 0 ELSE CHOOSE i \in 1..Sc.retries : ~Unanswered(i) /\ \A j \in 1..(i - 1) : Unanswered(j)
 St0 == [opened |-> {}, closed |-> {}, sent |-> 0, lastSend |-> 0, firstData |-> <<>>, firstAt |-> 0, got |-> FALSE, ret |-> [none |-> TRUE], retAt |-> 0]
